@@ -4,6 +4,7 @@ CONSTANTS
   BinOps <- BinL3t
   UnOps <- AllUn
   MaxDepth = 3
+  FloorDiv = TRUE
 INVARIANT DivModLaw
 INVARIANT BitLaw
 INVARIANT ShiftLaw
